@@ -576,7 +576,9 @@ def _read_status(ast, path, data_clean, betas, row):
         if op == 'loglogit' and rest[0] == 1 and n[2] is not None:
             i = rest[1]
             try:
-                a = val(n[2][i][1])
+                # availability looked up by alternative id: the two dictionaries need not be in the same order
+                av_by_alt = {int(k_): a_ for k_, a_ in n[2]}
+                a = val(av_by_alt[int(n[1][i][0])])
             except Exception:
                 return 'ambiguous'
             if a == 0:
